@@ -33,7 +33,22 @@ def palettes(ctx):
             continue
         pals.append(dict(zip([-1, 0, 1, 2, 3], xs)))
     pals.append({-1: -math.inf, 0: -2.5, 1: 0.1, 2: 7.25, 3: math.inf})
+    # ranges whose width is not a finite double: one infinite bound (nothing lies beyond it: behaviours that need that rank
+    # are not instantiated on the palette), and a finite range wider than the largest double
+    pals.append({-1: -3.0, 0: 0.0, 1: 5.0, 2: math.inf})
+    pals.append({0: -math.inf, 1: 0.5, 2: 2.0, 3: 7.0})
+    pals.append({-1: -1.7e308, 0: -1e308, 1: 0.0, 2: 1e308, 3: 1.7e308})
     return pals
+
+
+def needs(beh):
+    """ranks a behaviour uses"""
+    rs = {beh["cfg"]["lo"], beh["cfg"]["hi"], beh["cfg"]["def"]}
+    for st, ex in zip(beh["steps"], beh["expect"]):
+        rs.update(st["raw"] if st["act"] in ("Defuzzify", "Assign") else [])
+        rs.update(ex["value"])
+        rs.add(ex["prev"])
+    return {r for r in rs if r != NAN}
 
 
 def conv(pal, r):
@@ -151,7 +166,9 @@ def run(ctx: core.Ctx):
     rng = random.Random(ctx.seed)
     for bi, beh in enumerate(behs):
         # every behaviour on the canonical palette, plus one other palette chosen by the seed
-        for pi in {0, rng.randrange(len(pals))}:
+        for pi in {0, rng.randrange(len(pals)), len(pals) - 1 - bi % 3}:
+            if not needs(beh) <= set(pals[pi]):
+                continue
             ctx.count()
             bad = rp.run(beh, pals[pi], raise_mode=bi)
             if bad:
